@@ -18,10 +18,20 @@ Clause by clause:
 * exactly one of three outcomes; receipts .................. `executeTx_trichotomy`
 * failed at run time = fee + nonce only, world equality ..... `failed_only_fee_and_nonce_partial`
 * rejected = nothing (block state, BpReward, receipts) ...... `rejected_leaves_no_trace`, `rollback_exact` (C12)
-* succeeded = all effects: the copy-free reference for a
-  plain transfer (every tx type: oracle of harness/c03) ...... `transfer_applies_exactly`
+* succeeded = all effects, as an equality of the world with a copy-free specification of the intended
+  effects, per transaction type:
+    plain payments (NORMAL/TRANSFER/CALL, no code) .......... `transfer_applies_exactly`, `payment_applies_exactly`,
+                                                              `self_payment_applies_exactly`
+    stake / unstake / voteBP ................................ `stake_applies_exactly`, `unstake_applies_exactly`,
+                                                              `vote_applies_exactly`
+    name create / update / setOwner ......................... `name_create_applies_exactly`, `name_update_applies_exactly`,
+                                                              `set_owner_applies_exactly`
+    contract call, DEPLOY, REDEPLOY, FEEDELEGATION with a
+    scripted VM (transfers, storage writes, VM fee) ......... `vm_transaction_applies_exactly`
+    MULTICALL (never applied by the scripted VM) ............ `multicall_never_applied`
 * a block that fails at any position commits nothing ........ `refused_block_noop`, `refused_iff_some_tx_rejected`
 * the block a producer builds is accepted, same state ....... `producer_validator_agree`
+* the fees these statements speak of are the source's ....... `base_fee_is_the_source` (tie T, `Gen/Fee.lean`)
 
 Violated on the pinned tree (negation witness, class `C03-vm-fee-check-after-commit`): a tx with an
 ERROR receipt that nevertheless leaves a third account credited — `failed_tx_leaves_residue`; the
@@ -31,10 +41,13 @@ effects were not all applied) are repaired in /repo; regression tests in `Props/
 
 Not carried by a theorem (see notes/C03.md): the node-level half of the last clause (chain DB indexes,
 best block, bad-block cache: the chain-service harness of C05/C07) — here the block level is the block
-executor on a BlockState and the state DB root; "all effects applied" for tx types other than the plain
-transfer is checked by the harness' reference (`expectSuccess`) against the real code, not proved.
+executor on a BlockState and the state DB root. The success theorems do not cover the shapes signature
+verification excludes (sender = target of a VM transaction, a system account as the sender of a governance
+tx to itself: `Props.C01.contract_calling_itself_mints` shows the effects are *not* all applied there) and
+`v1unstake` carries the invariant "staking total ≥ the amount" as a hypothesis.
 -/
 import Aergo.Lemmas.LedgerAtomic
+import Aergo.Lemmas.LedgerEffects
 import Aergo.Lemmas.LedgerFee
 import Aergo.Props.C12
 
@@ -180,6 +193,171 @@ theorem transfer_applies_exactly (c : Ctx) (w : World) (bp : Nat) (tx : Tx) (r :
 /-- test (non-vacuity): such a transfer is applied -/
 example : (executeTx ctxPub w0 0 { type := .transfer, sender := 10, recipient := some 11, amount := 40, nonce := 1 }).outcome = .success := by
   decide
+
+/-! The same for every other transaction type of the model: the world after a successful transaction
+*equals* a copy-free specification of its intended effects (`Lemmas/LedgerEffects.lean`); each theorem also
+returns the preconditions its success implies. The hypotheses only name the shape of the transaction. -/
+
+/-- **A plain payment** of type NORMAL, TRANSFER or CALL to another account without code — as
+`transfer_applies_exactly`, for all three types (a CALL to a non-contract is a payment before version 3
+and fails at run time from version 3 on). -/
+theorem payment_applies_exactly (c : Ctx) (w : World) (bp : Nat) (tx : Tx) (r : Addr)
+    (ht : tx.type = .transfer ∨ tx.type = .normal ∨ tx.type = .call) (hr : tx.recipient = some r) (hne : tx.sender ≠ r)
+    (hcode : (w.acct r).code = false) (hs : (executeTx c w bp tx).outcome = .success) :
+    tx.amount + txBaseFee c tx.payloadLen ≤ w.bal tx.sender ∧
+    (executeTx c w bp tx).w =
+      (w.put tx.sender (({ w.acct tx.sender with bal := w.bal tx.sender - tx.amount - txBaseFee c tx.payloadLen } : Acct).setNonce tx.nonce)).put
+        r { w.acct r with bal := w.bal r + tx.amount } ∧
+    (executeTx c w bp tx).bp = bp + txBaseFee c tx.payloadLen :=
+  plain_send_effects rfl ht hr hne hcode hs
+
+/-- **A payment to oneself** (sender = recipient, a key account): base fee and nonce, nothing else — the two
+`AccountState` records of the one account leave no other trace. -/
+theorem self_payment_applies_exactly (c : Ctx) (w : World) (bp : Nat) (tx : Tx)
+    (ht : tx.type = .transfer ∨ tx.type = .normal ∨ tx.type = .call) (hr : tx.recipient = some tx.sender)
+    (hcode : (w.acct tx.sender).code = false) (hs : (executeTx c w bp tx).outcome = .success) :
+    tx.amount + txBaseFee c tx.payloadLen ≤ w.bal tx.sender ∧
+    (executeTx c w bp tx).w =
+      w.put tx.sender (({ w.acct tx.sender with bal := w.bal tx.sender - txBaseFee c tx.payloadLen } : Acct).setNonce tx.nonce) ∧
+    (executeTx c w bp tx).bp = bp + txBaseFee c tx.payloadLen :=
+  self_send_effects rfl ht hr hcode hs
+
+/-- test: a self-payment and a NORMAL payment are applied -/
+example : (executeTx ctxPub w0 0 { type := .transfer, sender := 10, recipient := some 10, amount := 40, nonce := 1 }).outcome = .success ∧
+    (executeTx ctxPub w0 0 { type := .normal, sender := 10, recipient := some 11, amount := 40, nonce := 1 }).outcome = .success := by
+  refine ⟨by decide, by decide⟩
+
+/-- **`v1stake`**: the amount moves from the sender to aergo.system, the staking record grows by it and is
+stamped with the block number, the staking total grows, the sender gets the tx nonce; no fee. Success
+implies the amount was covered and the resulting stake reaches the minimum. (`stakeEffects`) -/
+theorem stake_applies_exactly (c : Ctx) (w : World) (bp : Nat) (tx : Tx)
+    (ht : tx.type = .governance) (hr : tx.recipient = some aSystem) (hg : tx.gov = .stake)
+    (hne : tx.sender ≠ aSystem) (hs : (executeTx c w bp tx).outcome = .success) :
+    tx.amount ≤ w.bal tx.sender ∧ c.stakingMin ≤ staked w tx.sender + tx.amount ∧
+    (executeTx c w bp tx).w = stakeEffects c w tx ∧ (executeTx c w bp tx).bp = bp :=
+  stake_effects rfl ht hr hg hne hs
+
+/-- **`v1unstake`**: the amount moves from aergo.system back to the sender, the staking record and the
+total shrink by it. Success implies the stake and aergo.system's balance covered it and what stays is zero
+or at least the minimum. Hypothesis `htot`: the staking total is at least the amount (the total is the sum
+of the records in every reachable state; the code computes `|total − amount|`). (`unstakeEffects`) -/
+theorem unstake_applies_exactly (c : Ctx) (w : World) (bp : Nat) (tx : Tx)
+    (ht : tx.type = .governance) (hr : tx.recipient = some aSystem) (hg : tx.gov = .unstake)
+    (hne : tx.sender ≠ aSystem) (htot : tx.amount ≤ w.stakeTotal) (hs : (executeTx c w bp tx).outcome = .success) :
+    tx.amount ≤ staked w tx.sender ∧ tx.amount ≤ w.bal aSystem ∧
+    (staked w tx.sender - tx.amount = 0 ∨ c.stakingMin ≤ staked w tx.sender - tx.amount) ∧
+    (executeTx c w bp tx).w = unstakeEffects c w tx ∧ (executeTx c w bp tx).bp = bp :=
+  unstake_effects rfl ht hr hg hne htot hs
+
+/-- **`v1voteBP`** (as far as the ledger model goes): the staking record is re-stamped, the vote flag is
+set, the sender gets the tx nonce; no balance moves. Success implies the sender has a stake. (`voteEffects`) -/
+theorem vote_applies_exactly (c : Ctx) (w : World) (bp : Nat) (tx : Tx)
+    (ht : tx.type = .governance) (hr : tx.recipient = some aSystem) (hg : tx.gov = .voteBP)
+    (hne : tx.sender ≠ aSystem) (hs : (executeTx c w bp tx).outcome = .success) :
+    0 < staked w tx.sender ∧ (executeTx c w bp tx).w = voteEffects c w tx ∧ (executeTx c w bp tx).bp = bp :=
+  vote_effects rfl ht hr hg hne hs
+
+/-- a later block (the staking delay has passed) and a world in which account 10 has staked 50 -/
+def ctxLate : Ctx := { ctxPub with blockNo := 100000 }
+def wStaked : World :=
+  { w0 with accts := [(0, { bal := 50 }), (1, { bal := 500 }), (10, { bal := 1000000 }), (11, { bal := 1000000 }), (100, { bal := 700000, code := true })]
+            staking := [(10, (50, 0))], stakeTotal := 50 }
+def txStake : Tx := { type := .governance, sender := 10, recipient := some 0, amount := 10, nonce := 1, payloadLen := 9, gov := .stake }
+
+/-- test: stake, unstake (all of it) and vote are applied; after the stake aergo.system holds 10 more -/
+example : (executeTx ctxPub w0 0 txStake).outcome = .success ∧ (executeTx ctxPub w0 0 txStake).w.bal 0 = 10 ∧
+    (executeTx ctxLate wStaked 0 { txStake with gov := .unstake, amount := 50 }).outcome = .success ∧
+    (executeTx ctxLate wStaked 0 { txStake with gov := .voteBP, amount := 0 }).outcome = .success := by
+  refine ⟨by decide, by decide, by decide, by decide⟩
+
+/-- **`v1createName n`**: the name is recorded for the sender (owner and destination), the price goes to the
+owner of the name contract if one is set, else to aergo.name (`nameBeneficiary`; a sender who is that owner
+pays nothing), the sender gets the tx nonce; no fee. Success implies the price was offered and covered and
+the name was free. (`payNameEffects`) -/
+theorem name_create_applies_exactly (c : Ctx) (w : World) (bp : Nat) (tx : Tx) (n : Nat)
+    (ht : tx.type = .governance) (hr : tx.recipient = some aName) (hg : tx.gov = .nameCreate n)
+    (hne : tx.sender ≠ aName) (hs : (executeTx c w bp tx).outcome = .success) :
+    c.namePrice ≤ tx.amount ∧ tx.amount ≤ w.bal tx.sender ∧ w.ownerOf n = none ∧
+    (executeTx c w bp tx).w =
+      payNameEffects { w with names := mset w.names n (tx.sender, tx.sender) } (nameBeneficiary w) tx.sender tx.amount tx.nonce ∧
+    (executeTx c w bp tx).bp = bp :=
+  nameCreate_effects rfl ht hr hg hne hs
+
+/-- **`v1updateName n to`**: the name now points to `to` and is owned by `to`'s creator if `to` is a contract,
+by `to` otherwise; the price is paid as for a creation. Success implies the sender owned the name and the
+name was already visible in the last committed block. (`payNameEffects`) -/
+theorem name_update_applies_exactly (c : Ctx) (w : World) (bp : Nat) (tx : Tx) (n : Nat) (to : Addr)
+    (ht : tx.type = .governance) (hr : tx.recipient = some aName) (hg : tx.gov = .nameUpdate n to)
+    (hne : tx.sender ≠ aName) (hs : (executeTx c w bp tx).outcome = .success) :
+    c.namePrice ≤ tx.amount ∧ tx.amount ≤ w.bal tx.sender ∧ w.ownerOf n = some tx.sender ∧ (mget w.namesInit n).isSome ∧
+    (executeTx c w bp tx).w =
+      payNameEffects { w with names := mset w.names n ((mget w.creator to).getD to, to) } (nameBeneficiary w)
+        tx.sender tx.amount tx.nonce ∧
+    (executeTx c w bp tx).bp = bp :=
+  nameUpdate_effects rfl ht hr hg hne hs
+
+/-- **`v1setOwner a`**: `a` becomes the owner of the name contract and receives everything aergo.name holds
+(nothing moves if `a` is aergo.name itself; if `a` is the sender, the sender's own record is credited — the
+repaired defect of C01); the sender gets the tx nonce. Success implies no owner was set. (`setOwnerEffects`) -/
+theorem set_owner_applies_exactly (c : Ctx) (w : World) (bp : Nat) (tx : Tx) (a : Addr)
+    (ht : tx.type = .governance) (hr : tx.recipient = some aName) (hg : tx.gov = .setOwner a)
+    (hne : tx.sender ≠ aName) (hs : (executeTx c w bp tx).outcome = .success) :
+    w.ownerOf nAergoName = none ∧ (executeTx c w bp tx).w = setOwnerEffects w tx.sender a tx.nonce ∧
+    (executeTx c w bp tx).bp = bp :=
+  setOwner_effects rfl ht hr hg hne hs
+
+/-- a world in which account 11 owns name 5 since the last committed block -/
+def wNamed : World := { w0 with names := [(5, (11, 11))], namesInit := [(5, (11, 11))] }
+def txName : Tx := { type := .governance, sender := 11, recipient := some 1, amount := 3, nonce := 1, payloadLen := 9, gov := .nameCreate 6 }
+
+/-- test: create, update and setOwner (to the sender itself) are applied; after the setOwner the sender holds
+aergo.name's 500 units -/
+example : (executeTx ctxPub w0 0 txName).outcome = .success ∧
+    (executeTx ctxPub wNamed 0 { txName with gov := .nameUpdate 5 100 }).outcome = .success ∧
+    (executeTx ctxPub w0 0 { txName with gov := .setOwner 11, amount := 0 }).outcome = .success ∧
+    (executeTx ctxPub w0 0 { txName with gov := .setOwner 11, amount := 0 }).w.bal 11 = 1000500 := by
+  refine ⟨by decide, by decide, by decide, by decide⟩
+
+/-- **A transaction that runs the VM** — a CALL / NORMAL / TRANSFER to a contract, a DEPLOY (or legacy NORMAL
+without recipient), a REDEPLOY, a FEEDELEGATION call — with the sender different from the target: if it is
+applied, the script ran to its end and the world is `vmWorld`: every third party of the script's transfers
+credited in script order, the contract's storage writes staged (plus the creator record and the code flag
+on a deploy), the sender at − amount + what the script sent it − the fee (unless delegated) with the tx
+nonce, the contract at + amount − what the script sent out (− the fee if delegated); `BpReward` + the fee
+(base fee + the VM's fee). Success implies the amount, every transfer of the script and the fee were covered. -/
+theorem vm_transaction_applies_exactly (c : Ctx) (w : World) (bp : Nat) (tx : Tx)
+    (hg : tx.type ≠ .governance) (hm : tx.type ≠ .multicall) (hne : tx.sender ≠ tx.target)
+    (hvm : tx.deploys = true ∨ (w.acct tx.target).code = true)
+    (hs : (executeTx c w bp tx).outcome = .success) :
+    tx.script.err = .ok ∧ tx.amount ≤ w.bal tx.sender ∧
+    sentOut tx.target tx.script.xfers ≤ w.bal tx.target + tx.amount ∧
+    txBaseFee c tx.payloadLen + tx.script.fee ≤
+      (if tx.type = .feeDelegation then w.bal tx.target + tx.amount - sentOut tx.target tx.script.xfers
+       else w.bal tx.sender - tx.amount + sentTo tx.sender tx.target tx.script.xfers) ∧
+    (executeTx c w bp tx).w =
+      vmWorld w tx tx.target tx.deploys (decide (tx.type = .feeDelegation)) (txBaseFee c tx.payloadLen + tx.script.fee) ∧
+    (executeTx c w bp tx).bp = bp + (txBaseFee c tx.payloadLen + tx.script.fee) :=
+  vm_effects rfl hg hm hne hvm hs
+
+/-- a call of contract 100 whose script pays 5 to account 11 and 7 back to the sender and writes storage -/
+def txCall : Tx :=
+  { type := .call, sender := 10, recipient := some 100, amount := 9, nonce := 1, payloadLen := 40
+    script := { fee := 300, xfers := [(11, 5), (10, 7)], sets := [(1, 8)] } }
+
+/-- test: a call, a deploy (new address 200, its script pays 5 of the 9 it received to account 11) and a
+fee-delegation call are applied; the call leaves the
+contract at 700000 + 9 − 12 and the sender at 1000000 − 9 + 7 − (100000 + 300) -/
+example : (executeTx ctxPub w0 0 txCall).outcome = .success ∧
+    (executeTx ctxPub w0 0 txCall).w.bal 100 = 699997 ∧ (executeTx ctxPub w0 0 txCall).w.bal 10 = 899698 ∧
+    (executeTx ctxPub w0 0 { txCall with type := .deploy, recipient := none, newAddr := 200, script := { fee := 300, xfers := [(11, 5)] } }).outcome = .success ∧
+    (executeTx ctxPub w0 0 { txCall with type := .feeDelegation, amount := 0 }).outcome = .success := by
+  refine ⟨by decide, by decide, by decide, by decide, by decide⟩
+
+/-- **A MULTICALL is never applied** by the scripted VM (it holds no multicall code): it fails at run time
+(fee + nonce, `failed_only_fee_and_nonce_partial`) or is rejected. -/
+theorem multicall_never_applied (c : Ctx) (w : World) (bp : Nat) (tx : Tx) (ht : tx.type = .multicall) :
+    (executeTx c w bp tx).outcome ≠ .success :=
+  multicall_not_applied ht
 
 /-! ### blocks -/
 
